@@ -13,6 +13,7 @@ import (
 	"strings"
 	"sync"
 	"sync/atomic"
+	"syscall"
 	"time"
 
 	"verif/mc/core"
@@ -163,7 +164,10 @@ type failure struct {
 	partial *reply // cumulative results of the cases before `last`, when the worker streamed them
 }
 
-func (p *proc) do(rq request) (reply, *failure) {
+func (p *proc) do(rq request, cpuLimit float64) (reply, *failure) {
+	if cpuLimit <= 0 {
+		cpuLimit = watchdogCPU
+	}
 	b, _ := json.Marshal(rq)
 	b = append(b, '\n')
 	last := int64(-1)
@@ -221,9 +225,16 @@ func (p *proc) do(rq request) (reply, *failure) {
 			return reply{}, &failure{stderr: p.stderr.String(), last: last, partial: partial}
 		case <-tick.C:
 			cpu := p.cpuSeconds()
-			if (cpu0 >= 0 && cpu >= 0 && cpu-cpu0 > watchdogCPU) || time.Since(start) > watchdogWall {
+			if (cpu0 >= 0 && cpu >= 0 && cpu-cpu0 > cpuLimit) || time.Since(start) > watchdogWall {
 				if last < 0 {
 					last = p.suspect(rq.ID)
+				}
+				// ask the Go runtime for a goroutine dump first (it names the
+				// function the worker is stuck in), then make sure it is dead
+				_ = p.cmd.Process.Signal(syscall.SIGQUIT)
+				select {
+				case <-p.exited:
+				case <-time.After(10 * time.Second):
 				}
 				p.kill()
 				return reply{}, &failure{wedged: true, stderr: p.stderr.String(), last: last, partial: partial}
@@ -297,7 +308,8 @@ func (pl *pool) isKnown(class string) bool {
 type wslot struct {
 	pl    *pool
 	p     *proc
-	stack int // goroutine stack ceiling of this slot's workers (0 = Go's default)
+	stack int     // goroutine stack ceiling of this slot's workers (0 = Go's default)
+	cpu   float64 // CPU-seconds watchdog per batch (0 = watchdogCPU)
 }
 
 func (w *wslot) ensure() error {
@@ -323,7 +335,7 @@ func (w *wslot) ensure() error {
 			lastErr = err
 			continue
 		}
-		_, f := p.do(request{ID: atomic.AddInt64(&w.pl.nextID, 1)})
+		_, f := p.do(request{ID: atomic.AddInt64(&w.pl.nextID, 1)}, 0)
 		if f != nil {
 			lastErr = fmt.Errorf("worker did not answer the handshake: %s", tail(strings.TrimSpace(f.stderr), 200))
 			p.kill()
@@ -347,7 +359,7 @@ func (w *wslot) do(rq request) (reply, *failure) {
 		return reply{Err: "cannot start worker: " + err.Error()}, nil
 	}
 	rq.ID = atomic.AddInt64(&w.pl.nextID, 1)
-	rp, f := w.p.do(rq)
+	rp, f := w.p.do(rq, w.cpu)
 	if f != nil {
 		w.restart()
 	}
@@ -478,14 +490,20 @@ func deathClass(f *failure, k *kase) (class, got string) {
 	if target == "" {
 		target = k.Space
 		if k.Stratum != "" {
-			target += ":" + k.Stratum
+			root := k.Stratum
+			if i := strings.IndexByte(root, '/'); i > 0 {
+				root = root[:i]
+			}
+			target += ":" + root
 		}
-	}
-	if f.wedged {
-		return "wedged:" + target, fmt.Sprintf("the worker consumed more than %.0f s of CPU (or %s of wall clock) on this single case and was killed", watchdogCPU, watchdogWall)
 	}
 	if where == "" {
 		where = target
+	}
+	if f.wedged {
+		// named by the function that dominates the stuck goroutine's stack
+		// (from the SIGQUIT dump), or by the case's context when there is none
+		return "wedge:" + where, "the worker did not return: it consumed its CPU-time watchdog (or " + watchdogWall.String() + " of wall clock) on this single case and was killed; stuck in " + where
 	}
 	return "fatal:" + reason + ":" + where, "the worker process died: " + tail(strings.TrimSpace(f.stderr), 300)
 }
@@ -532,7 +550,7 @@ func (pl *pool) confirm(w *wslot, sp *space, aux string, idx int64, first *failu
 			wg.Add(1)
 			go func(i int) {
 				defer wg.Done()
-				ws := &wslot{pl: pl, stack: sp.Stack}
+				ws := &wslot{pl: pl, stack: sp.Stack, cpu: sp.WatchCPU}
 				defer ws.restart()
 				runOne(i, ws)
 			}(i)
@@ -578,7 +596,7 @@ func (pl *pool) runSpace(sp *space, aux string) {
 		wg.Add(1)
 		go func() {
 			defer wg.Done()
-			w := &wslot{pl: pl, stack: sp.Stack}
+			w := &wslot{pl: pl, stack: sp.Stack, cpu: sp.WatchCPU}
 			defer w.restart()
 			for {
 				lo := atomic.AddInt64(&next, sp.Batch) - sp.Batch
@@ -622,7 +640,7 @@ func runCaseIsolated(k kase) (reply, *failure) {
 		return reply{Err: err.Error()}, nil
 	}
 	defer p.kill()
-	return p.do(request{ID: 1, Case: &k})
+	return p.do(request{ID: 1, Case: &k}, 0)
 }
 
 func writeAux(dir, name string, a auxData) (string, error) {
